@@ -9,6 +9,75 @@ FUNCS = [cm.P + n for n in ('expand_sequence', 'remove_pure_action_lines', 'pars
 def SELECT(name):
     return not cm.is_safety(name)
 
+
+
+def lemmas():
+    """ownership lemma for the list of detached text flows (AST scan):
+    `X.extracted` is appended to while an argument is still being expanded
+    (expand_arguments evaluates `self.extracted.append(<expansion>)`: the
+    list object is looked up BEFORE the expansion runs), so the attribute
+    must denote the same list object throughout an expansion.  Allowed
+    stores: reset to a fresh `[]`, restore of a value saved from the same
+    attribute in the same function, `.append` in expand_arguments,
+    `del X.extracted[n:]` in get_text_expanded.  Anything else rebinds or
+    mutates the list behind a pending append."""
+    import ast
+    from pyvc import front
+    repo = front.repo()
+    found = 0
+
+    def rooted(t):
+        while isinstance(t, (ast.Subscript, ast.Starred)):
+            t = t.value
+        return t if isinstance(t, ast.Attribute) and \
+            t.attr == 'extracted' else None
+    for q, fi in repo.funcs.items():
+        saved = set()
+        for n in ast.walk(fi.node):
+            if isinstance(n, ast.Assign) and len(n.targets) == 1 and \
+                    isinstance(n.targets[0], ast.Name) and \
+                    isinstance(n.value, ast.Attribute) and \
+                    n.value.attr == 'extracted':
+                saved.add(n.targets[0].id)
+        for n in ast.walk(fi.node):
+            if isinstance(n, (ast.Assign, ast.AugAssign, ast.AnnAssign,
+                              ast.Delete)):
+                ts = n.targets if isinstance(n, (ast.Assign, ast.Delete)) \
+                    else [n.target]
+                for t in ts:
+                    a = rooted(t)
+                    if a is None:
+                        continue
+                    found += 1
+                    if isinstance(n, ast.Assign) and a is t:
+                        v = n.value
+                        ok = (isinstance(v, ast.List) and not v.elts) or (
+                            isinstance(v, ast.Name) and v.id in saved)
+                        kind = 'assign'
+                    elif isinstance(n, ast.Delete) and \
+                            isinstance(t, ast.Subscript):
+                        ok = q == 'yalafi.parser.Parser.get_text_expanded'
+                        kind = 'delete'
+                    else:
+                        ok, kind = False, type(n).__name__.lower()
+                    yield ('frame:flows-list-identity:%s:%s@%d' % (
+                        q, kind, n.lineno), ok, '`%s` in %s' % (
+                            ast.unparse(n), q), False)
+            elif isinstance(n, ast.Call) and \
+                    isinstance(n.func, ast.Attribute) and \
+                    isinstance(n.func.value, ast.Attribute) and \
+                    n.func.value.attr == 'extracted' and \
+                    n.func.attr not in ('copy', 'index', 'count'):
+                found += 1
+                ok = n.func.attr == 'append' and \
+                    q == 'yalafi.parser.Parser.expand_arguments'
+                yield ('frame:flows-list-identity:%s:%s@%d' % (
+                    q, n.func.attr, n.lineno), ok, '`%s` in %s' % (
+                        ast.unparse(n)[:80], q), False)
+    yield ('frame:flows-list-store-sites-found', found >= 4,
+           '%d sites' % found, False)
+
+
 TRUSTED = cm.TRUSTED_CORE
 ASSUMPTIONS = cm.ASSUME_CORE + ['assumption NoMathTokensInTextOutput (see DESIGN)', 'which macros exist and what they expand to (parameters.py, packages) is not judged']
 LEVEL_TEXT = 'Proves mechanism lemmas as postconditions of single functions: (closure) expand_sequence without env_stop and parse return no token of a markup class (Comment, Macro, Special, Begin, End, Item, Accent, Verbatim, MathBegin) and no Action/Void token -- no control sequence, brace or $ token survives; (tiling) the scanner tokens tile the source, so no character is lost or duplicated by tokenisation; (issue 23) arg_buffer always returns a non-empty buffer and pushes the collected tokens back at end of text; (skip comments) parser_work removes whole token ranges only; (flows) parse appends exactly the collected flows after the main text; maths: every token of a rendered formula is generated text or a pass-through text token. The catalogue-wide sentence (every typeset word appears once) is NOT decided: it needs a formal semantics of LaTeX expansion as oracle.'
